@@ -241,12 +241,17 @@ def build_jobs(prop, tier, wd, only=None):
             # memory-heavy harnesses (observed peak >= 8 GB, @mem) run in their own, less parallel group
             groups.setdefault((fs, "heavy" if h.mem_gb >= 8 else ""), []).append(h)
     # groups of different feature sets (own target directory each) run concurrently, at most KANI_BUCKETS at a time;
-    # the 12 CBMC jobs (44 GB budget) are divided between them
-    nb = max(1, min(KANI_BUCKETS, len({fs for (fs, cls) in groups})))
+    # the 12 CBMC jobs (44 GB budget) are divided between the buckets in proportion to their number of harnesses
+    sizes = {}
+    for (fs, cls), lst in groups.items():
+        sizes[fs] = sizes.get(fs, 0) + len(lst)
+    nb = max(1, min(KANI_BUCKETS, len(sizes)))
+    tot = sum(sorted(sizes.values(), reverse=True)[:nb]) or 1
     for (fs, cls), lst in sorted(groups.items()):
         label = "kani[%s]%s" % (fs, "/" + cls if cls else "")
-        per = max(1, 12 // nb)
+        per = 12 if nb == 1 else max(1, min(len(lst), (12 * sizes[fs]) // tot))
         if cls:
-            per = max(1, min(per, int((44 // nb) // max(h.mem_gb for h in lst))))
+            share = 44 if nb == 1 else max(8, (44 * sizes[fs]) // tot)
+            per = max(1, min(per, int(share // max(h.mem_gb for h in lst))))
         jobs.append((label, (lambda l=label, x=lst, f=fs, j=per: kunit.run_group(l, x, f, jobs=j)), "kani:" + fs))
     return jobs
